@@ -82,6 +82,27 @@ def init_walk(ctx):
                 cond_ok = True
     if not cond_ok:
         bad = 'the loop condition does not test the key of the entry under the cursor (end marker)'
+    # the walk ends ONLY at the end marker: an initialiser that reports an error must not keep the entries behind it from
+    # being initialised (their type initialisers arm timers, activate consumers, rewind offsets)
+    early = None
+    for nid in lp.nodes:
+        node = g.nodes[nid]
+        for (t, lab) in node.succ:
+            if t in lp.nodes or t == lp.head:
+                continue
+            tests_key = node.kind == 'br' and node.x is not None and any(
+                n.k == 'mem' and n.field == ('CO_OBJ', 'Key') and strip(n.kids[0]).k == 'ref' and strip(n.kids[0]).ref == cursor.ref
+                for n in walk(node.x))
+            if not tests_key:
+                early = node
+    if early is not None:
+        ctx.ob(P + ['C20'], 'RF2-dict-init', f, site + ' ends only at the end marker', None)
+        ctx.find(P + ['C20'], 'RF2-dict-init', f, 'early-exit', m.loc(f, early.line or m.funcs[f].line),
+                 'the initialisation walk can end before the end marker (%s): every entry behind that point keeps an '
+                 'uninitialised type state (no heartbeat producer / consumer / SYNC activation, stale domain and string '
+                 'offsets)' % (show(early.x) if early.x is not None else early.kind))
+    else:
+        ctx.ob(P + ['C20'], 'RF2-dict-init', f, site + ' ends only at the end marker', 'every loop exit is the end-marker test')
     if bad:
         ctx.ob(P, 'RF2-dict-init', f, site, None)
         ctx.find(P, 'RF2-dict-init', f, 'init-order', m.loc(f, g.nodes[adv[0]].line if adv else m.funcs[f].line), bad)
@@ -144,10 +165,12 @@ def search_shape(ctx):
     if len(lp.cond_nodes) != 1:
         return fail('cond', 'compound loop condition', broken=True)
     c = strip(g.nodes[lp.cond_nodes[0]].x)
-    if not (c.k == 'bin' and c.op in ('<=', '<') and strip(c.kids[0]).k == 'ref' and strip(c.kids[1]).k == 'ref'):
+    if not (c.k == 'bin' and c.op in ('<=', '<', '>=', '>') and strip(c.kids[0]).k == 'ref' and strip(c.kids[1]).k == 'ref'):
         return fail('cond', 'loop condition %s' % show(c), broken=True)
     lo, hi = strip(c.kids[0]), strip(c.kids[1])
-    inclusive = c.op == '<='
+    if c.op in ('>=', '>'):
+        lo, hi = hi, lo                   # `hi >= lo` is `lo <= hi`
+    inclusive = c.op in ('<=', '>=')
     for v in (lo, hi):
         it = int_type(v.cty)
         if it is None:
@@ -453,8 +476,17 @@ def domain_clip(ctx):
             exp = min(req, size_ - off)
             site = '%s size=%d offset=%d requested=%d' % (f, size_, off, req)
             bad = None
+            # the local that holds the number of bytes to move = the down-counter the copy loop tests (by role, not by name)
+            cnt = 'len'
+            g_ = m.cfg(f)
+            for lp_ in g_.loops:
+                for cn_ in lp_.cond_nodes:
+                    cx_ = strip(g_.nodes[cn_].x)
+                    if cx_ is not None and cx_.k == 'bin' and cx_.op in ('>', '!=') and strip(cx_.kids[0]).k == 'ref' \
+                            and const_eval(cx_.kids[1]) == 0:
+                        cnt = strip(cx_.kids[0]).name
             for t in trs:
-                lens = [e[2] for e in t.events if e[0] == 'set' and e[1] == 'len']
+                lens = [e[2] for e in t.events if e[0] == 'set' and e[1] == cnt]
                 if not lens or lens[0] != exp:
                     bad = 'moves %s bytes, required min(requested, remaining) = %d' % (lens[:1], exp)
             _rep(ctx, f, site, bad, 'RF6-domain')
@@ -513,57 +545,8 @@ def offset_discipline(ctx):
             _rep(ctx, f, '%s offset=%d' % (f, para), bad, 'RF2-offset')
     # (2) data-dependent copy loops
     n_loops = 0
-    for f, fld in (('COTStringRead', ('CO_OBJ_STR', 'Offset')),):
-        m.need(f)
-        g = m.cfg(f)
-        for lp in g.loops:
-            # loop whose exit test dereferences data (`*ptr != 0`)
-            datadep = False
-            for c in lp.cond_nodes:
-                for x in walk(g.nodes[c].x):
-                    if x.k == 'un' and x.op == '*':
-                        datadep = True
-            if not datadep:
-                continue
-            n_loops += 1
-            variant = set()
-            for nid in lp.nodes:
-                nd = g.nodes[nid]
-                if nd.x is None:
-                    continue
-                for x in walk(nd.x):
-                    t = None
-                    if x.k == 'un' and x.op in ('++', '--', 'post++', 'post--'):
-                        t = strip(x.kids[0])
-                    elif x.k == 'bin' and x.op.endswith('=') and x.op not in ('==', '!=', '<=', '>='):
-                        t = strip(x.kids[0])
-                    if t is not None and t.k == 'ref':
-                        variant.add(t.ref)
-            after = [nd for nd in g.nodes if nd.x is not None and nd.id not in lp.nodes and m.field_stores(nd.x, fld)]
-            inside = [nd for nd in g.nodes if nd.x is not None and nd.id in lp.nodes and m.field_stores(nd.x, fld)]
-            site = '%s: offset update after the copy loop at line %d' % (f, lp.line)
-            bad = None
-            if not after and not inside:
-                bad = 'the offset is not updated'
-            for nd in after:
-                for (l, rhs, n) in m.field_stores(nd.x, fld):
-                    deps = set(x.ref for x in walk(n.kids[1]) if x.k == 'ref' and x.refk in ('VarDecl', 'ParmVarDecl')) if n.k == 'bin' else set()
-                    # follow one level of local definitions (offset = start + copied)
-                    dfs = m.defs_of(f)
-                    more = set()
-                    for r in list(deps):
-                        u = dfs.unique_def(nd.id, r)
-                        if u is not None:
-                            more |= set(x.ref for x in walk(u[1]) if x.k == 'ref' and x.refk in ('VarDecl', 'ParmVarDecl'))
-                    if not ((deps | more) & variant):
-                        bad = '%s does not depend on any variable the copy loop advances (%s): the offset moves by the ' \
-                              'requested size even when the loop stopped at the terminator' % (show(n), 'none' if not variant else 'loop advances other variables')
-            if bad:
-                ctx.ob(P, 'RF2-offset', f, site, None)
-                ctx.find(P, 'RF2-offset', f, 'offset-not-loop-variant', m.loc(f, lp.line), '%s: %s' % (site, bad))
-            else:
-                ctx.ob(P, 'RF2-offset', f, site, 'new offset depends on a per-byte loop variable')
-    ctx.require_min(P, 'RF2-offset', n_loops, 1, 'data-dependent copy loops')
+    # (2) is decided by RF17-O2 (rules/rf17_copy.py): on every path the position advances by exactly the bytes moved
+
 
 
 def object_layer_forwarding(ctx):
